@@ -8,6 +8,7 @@
 import AeicProofs.RealInst
 import AeicProofs.Lemmas.C17Attrs
 import AeicProofs.Lemmas.C17Iterate
+import AeicProofs.Lemmas.KernelBridge3
 import AeicModel.Builder
 
 namespace C17
@@ -214,5 +215,31 @@ example : Disjoint (⟨[("options", 0)], some [("starting_mass", 1)]⟩ : Obj Na
   subst hc
   simp only [List.lookup] at h1 h2
   split at h1 <;> split at h2 <;> simp_all
+
+/-! ## Source tie: the residual of one flight iteration and the correction of one pass of the mass-iteration loop, regenerated
+    from `trajectories/builders/base.py` (`Aeic.Kern.iter_mass_residual`, `iter_correct_*`; the `while` loop of `_iterate_mass` is
+    read in loop mode: one pass from an arbitrary loop state) -/
+
+/-- the correction of the source takes the same amount from the starting mass and from the trip fuel: the dry mass
+    (starting mass − trip fuel) is the same for every iterate — for every state and every residual -/
+theorem src_mass_correction_keeps_dry_mass (A : String → ℝ) (res : ℝ) :
+    Kern.iter_correct_starting_mass A res - Kern.iter_correct_total_fuel_mass A res
+      = A "self.starting_mass" - A "self.total_fuel_mass" := by
+  simp only [Kern.iter_correct_starting_mass, Kern.iter_correct_total_fuel_mass]; ring
+
+/-- the residual of the source is the leftover trip fuel relative to the trip fuel: it is zero exactly when the flight burned the
+    whole trip fuel, and `|residual| < tol` bounds the leftover by `tol · trip fuel` -/
+theorem src_residual_is_relative_leftover (A : String → ℝ) (finalMass : ℝ) (h : A "self.total_fuel_mass" ≠ 0) :
+    Kern.iter_mass_residual A finalMass * A "self.total_fuel_mass"
+      = A "self.total_fuel_mass" - (A "self.starting_mass" - finalMass) := by
+  simp only [Kern.iter_mass_residual]; field_simp
+
+/-- … and they are the model's: the residual of `flyIteration` and the `sm − res·tfm`, `tfm − res·tfm` of `iterLoop`, about which
+    `iterate_mass_sound` / `fly_iterated_within_tolerance` are proved -/
+theorem src_iteration_is_model (sm tfm res finalMass : ℝ) :
+    Kern.iter_mass_residual (KernelBridge3.iterEnv sm tfm) finalMass = (tfm - (sm - finalMass)) / tfm ∧
+    Kern.iter_correct_starting_mass (KernelBridge3.iterEnv sm tfm) res = sm - res * tfm ∧
+    Kern.iter_correct_total_fuel_mass (KernelBridge3.iterEnv sm tfm) res = tfm - res * tfm :=
+  KernelBridge3.iterate_mass sm tfm res finalMass
 
 end C17
